@@ -52,6 +52,18 @@ def replay_docstring(obligation: str = "", model: Optional[Dict[str, str]] = Non
     return {"confirmed": False}
 
 
+def _gxx_sees_declaration(comment: str) -> bool:
+    if shutil.which("g++") is None:
+        return C.no_line_continuation(comment)
+    with tempfile.NamedTemporaryFile("w", suffix=".cpp", delete=False, encoding="utf-8", newline="") as f:
+        f.write(comment + "\nint declared_after_the_comment = 1;\nint user = declared_after_the_comment;\n")
+        fn = f.name
+    try:
+        return subprocess.run(["g++", "-fsyntax-only", "-w", fn], capture_output=True, timeout=60).returncode == 0
+    finally:
+        os.unlink(fn)
+
+
 def _node_ok(src: str) -> Optional[bool]:
     if shutil.which("node") is None:
         return None
@@ -87,6 +99,10 @@ def replay_comment(obligation: str = "", model: Optional[Dict[str, str]] = None,
                 prefix = {"cpp": "///", "golang": "//", "python": "#:"}[target]
                 ok = C.line_comment_ok(res, prefix)
                 judge = "line-comment grammar"
+                if ok and target == "cpp":
+                    # g++ as judge: the comment followed by a declaration; a spliced line swallows the declaration
+                    ok = _gxx_sees_declaration(res)
+                    judge = "g++ -fsyntax-only on the comment followed by a declaration that is then used"
             if not ok:
                 return {"confirmed": True, "input": {"target": target, "text": t}, "emitted": res,
                         "observed": "the emitted text is not a single comment", "judge": judge}
